@@ -230,7 +230,24 @@ def _vmap_case(case, seed):
             v.append(viol(fp, msg, case=case))
 
     Bn = 3
-    entries = [mlh.make_input(in_sig, D, sp, rng, integer=False) for _ in range(Bn)]
+
+    def draw():
+        # U-Nets pool by arg-max of the pixel norm: draw entries whose pooled patches have a unique maximum by a 1e-3
+        # relative margin (premise of max pooling, see C08), so rounding differences between the batched and the
+        # un-batched execution cannot flip an arg-max
+        for _ in range(8):
+            e = mlh.make_input(in_sig, D, sp, rng, integer=False)
+            if "UNet" not in name:
+                return e
+            with mlh.Monitor() as mon:
+                f(mlh.to_mi(e, D, True, order=order))
+                if mon.take_pool_margin() > 1e-3:
+                    return e
+        return None
+
+    entries = [draw() for _ in range(Bn)]
+    if any(e is None for e in entries):
+        return {"status": "disabled", "note": "max-pool uniqueness premise fails on 8 generic inputs"}
 
     def stack(es):
         return geom.MultiImage({kp: jnp.asarray(np.stack([e[kp] for e in es])) for kp in order}, D, True)
